@@ -69,7 +69,85 @@ fn same_bytes(spec: &Spec, a: &[u8], b: &[u8]) -> bool {
     false
 }
 
+/// "List-adding calls preserve insertion order": the image of a builder with several adds is
+/// the concatenation, in call order, of the element images that one-add builders produce.
+/// (Comparing two real builds of the same list cannot see a reordering that both share.)
+fn append_check(spec: &Spec, key: u64, applicable: &mut bool) -> Option<(String, String)> {
+    let img = |s: &Spec| -> Option<Vec<u8>> {
+        let b = build_and_write(&plan_canonical(s), key);
+        match b.write {
+            WRes::Ok(_) => Some(b.bytes),
+            _ => None,
+        }
+    };
+    let kind = spec.kind_name();
+    // (whole image, offset of the list region, per-element images with the offset of the element inside them)
+    let (whole, start, elems): (Vec<u8>, usize, Vec<Vec<u8>>) = match spec {
+        Spec::Sr { ssrc, ntp, rtp, pc, oc, blocks, .. } if blocks.len() >= 2 => {
+            let mk = |b: Vec<Rb>| Spec::Sr { ssrc: *ssrc, ntp: *ntp, rtp: *rtp, pc: *pc, oc: *oc, blocks: b, padding: 0 };
+            let mut e = Vec::new();
+            for b in blocks {
+                e.push(img(&mk(vec![b.clone()]))?.get(28..52)?.to_vec());
+            }
+            (img(&mk(blocks.clone()))?, 28, e)
+        }
+        Spec::Rr { ssrc, blocks, .. } if blocks.len() >= 2 => {
+            let mk = |b: Vec<Rb>| Spec::Rr { ssrc: *ssrc, blocks: b, padding: 0 };
+            let mut e = Vec::new();
+            for b in blocks {
+                e.push(img(&mk(vec![b.clone()]))?.get(8..32)?.to_vec());
+            }
+            (img(&mk(blocks.clone()))?, 8, e)
+        }
+        Spec::Bye { sources, .. } if sources.len() >= 2 => {
+            let mk = |s: Vec<u32>| Spec::Bye { sources: s, reason: String::new(), padding: 0 };
+            let mut e = Vec::new();
+            for s in sources {
+                e.push(img(&mk(vec![*s]))?.get(4..8)?.to_vec());
+            }
+            (img(&mk(sources.clone()))?, 4, e)
+        }
+        Spec::Sdes { chunks, .. } if chunks.len() >= 2 => {
+            let mk = |c: Vec<Chunk>| Spec::Sdes { chunks: c, padding: 0 };
+            let mut e = Vec::new();
+            for c in chunks {
+                e.push(img(&mk(vec![c.clone()]))?.get(4..)?.to_vec());
+            }
+            (img(&mk(chunks.clone()))?, 4, e)
+        }
+        Spec::ChunkOnly(c) if c.items.len() >= 2 => {
+            let mut e = Vec::new();
+            for i in &c.items {
+                e.push(img(&Spec::ItemOnly(i.clone()))?);
+            }
+            (img(spec)?, 4, e)
+        }
+        Spec::Fb { kind: k, sender, media, fci: Fci::Sli { entries }, .. } if entries.len() >= 2 => {
+            let mk = |en: Vec<(u16, u16, u8)>| Spec::Fb { kind: *k, sender: *sender, media: *media, fci: Fci::Sli { entries: en }, padding: 0 };
+            let mut e = Vec::new();
+            for en in entries {
+                e.push(img(&mk(vec![*en]))?.get(12..16)?.to_vec());
+            }
+            (img(&mk(entries.clone()))?, 12, e)
+        }
+        _ => return None,
+    };
+    *applicable = true;
+    let mut off = start;
+    for (i, e) in elems.iter().enumerate() {
+        if whole.get(off..off + e.len()) != Some(e.as_slice()) {
+            return Some((
+                format!("append_order@{kind}"),
+                format!("element {i} of the list is not found at its insertion position (byte {off}): builder image {} vs one-element image {}", hex(&whole), hex(e)),
+            ));
+        }
+        off += e.len();
+    }
+    None
+}
+
 struct Run {
+    appended: bool,
     violation: Option<(String, String)>,
     inconclusive: bool,
     shape: u64,
@@ -102,7 +180,7 @@ fn run_case(spec: &Spec, tape: &mut Tape, key_canon: u64, key_var: u64) -> Resul
     let kind = spec.kind_name();
     let pa = matches!(a.write, WRes::Panic(_)) || matches!(a.size, Some(WRes::Panic(_)));
     let pb = matches!(b.write, WRes::Panic(_)) || matches!(b.size, Some(WRes::Panic(_)));
-    let mut run = Run { violation: None, inconclusive: false, shape, log };
+    let mut run = Run { appended: false, violation: None, inconclusive: false, shape, log };
     if pa && pb {
         run.inconclusive = true;
         return Ok(run);
@@ -123,6 +201,12 @@ fn run_case(spec: &Spec, tape: &mut Tape, key_canon: u64, key_var: u64) -> Resul
     if !same_bytes(&spec, &a.bytes, &b.bytes) {
         let i = a.bytes.iter().zip(b.bytes.iter()).position(|(x, y)| x != y).unwrap_or(a.bytes.len().min(b.bytes.len()));
         run.violation = Some((format!("bytes_differ@{kind}"), format!("first difference at byte {i}: canonical {} vs history-built {}", hex(&a.bytes), hex(&b.bytes))));
+        return Ok(run);
+    }
+    if matches!(a.write, WRes::Ok(_)) {
+        let mut applicable = false;
+        run.violation = append_check(&spec, key_canon, &mut applicable);
+        run.appended = applicable;
     }
     Ok(run)
 }
@@ -261,6 +345,9 @@ impl Check for C20 {
         ctx.stats.trace_digest ^= fnv1a(seed, &run.shape.to_le_bytes());
         if run.inconclusive {
             ctx.stats.inconclusive_panics += 1;
+        }
+        if run.appended {
+            ctx.stats.count("append_order_checks", 1);
         }
         if tape.rec.iter().any(|v| *v != 0) {
             // non-trivial: the history differs from the canonical one somewhere
